@@ -48,7 +48,7 @@ RULE = (
     "distinct by recipe digest."
 )
 ASSUMPTIONS = ["relative tolerance 1e-12 on formulas",
-               "ladder steps differ by a factor >= 1.5, far above rounding"]
+               "ladder steps differ by a factor 1.7 or by >= 0.012 in the scale, far above rounding"]
 
 GRID = list(itertools.product([2, 3, 5, 10, 100, 1000, 100000], [1, 2, 3, 5, 10, 50],
                               [1, 2, 3, 5], [0.0, 0.5, 1.0, 2.0, 7.0]))
@@ -324,8 +324,16 @@ def make_ladder_recipe(rng, tier):
         msl = max(msl, 2)
         X = X + 1e-3 * rng.standard_normal(X.shape)
     base = float(rng.choice([0.001, 0.01, 0.05]))
-    return {"kind": "ladder", "cost": cost, "msl": msl, "X": X,
-            "scales": [0.0] + [base * 1.7 ** i for i in range(14)]}
+    scales = [0.0] + [base * 1.7 ** i for i in range(14)]
+    if rng.random() < 0.6:
+        # a fine grid over the low-penalty range on short noisy integer series with msl >= 2: where
+        # competing segmentations are nearly tied and an inexact search becomes non-monotone
+        msl = max(msl, 2) + int(rng.integers(0, 4))
+        n = int(rng.integers(2 * msl + 6, 60))
+        X = rng.integers(-3, 4, size=(n, p)).astype(float) + (
+            0.0 if cost["cls"] != "GaussianVarCost" else 1e-3 * rng.standard_normal((n, p)))
+        scales = np.round(np.linspace(0.03, 0.45, 36), 4).tolist()
+    return {"kind": "ladder", "cost": cost, "msl": msl, "X": X, "scales": scales}
 
 
 def ladder_case(ctx, r):
@@ -371,7 +379,7 @@ def run(ctx):
         exec_case(ctx, {"kind": "grid", "n": n, "p": p, "k": k, "s": s})
     for _ in range(CASES[ctx.tier]):
         exec_case(ctx, make_det_recipe(ctx.rng, ctx.tier))
-    for _ in range(CASES[ctx.tier] // 4):
+    for _ in range(CASES[ctx.tier] // 2):
         exec_case(ctx, make_ladder_recipe(ctx.rng, ctx.tier))
     ctx.stat("K6_evaluations", I.COUNTS["K6"])
 
